@@ -146,6 +146,8 @@ def type_key(t) -> str:
     """Total, address-free key for a type expression."""
     if isinstance(t, type):
         return f"{t.__module__}.{t.__qualname__}"
+    if isinstance(t, str):
+        return "printed:" + t  # dynamic SGE keys non-class symbols by their printed form
     origin = typing.get_origin(t)
     if origin is typing.Annotated or hasattr(t, "__metadata__"):
         base = typing.get_args(t)[0] if typing.get_args(t) else None
